@@ -7,6 +7,14 @@ import itertools
 import vcheck, vdrv
 
 PROGRAMS = {
+    # (seed C18-4) a field array sized by an expression whose value changes during the run: the size is a property of each creation, not of
+    # the declaration, and the next shot starts from the declaration again
+    "field-array-size-changes-during-run": """static class Cfg { public static int width = 1; }
+class Rg { public int[Cfg.width] cells; public qubit[Cfg.width] qs; public constructor() -> Rg = default; }
+function main() -> void { Rg narrow = new Rg(); echo(narrow.cells); x(narrow.qs[0]); echo(measure narrow.qs[0]); Cfg.width = 3; Rg wide = new Rg(); echo(wide.cells); x(wide.qs[2]); echo(measure wide.qs[2]); }""",
+    "field-array-size-from-measurement": """static class Cfg { public static int width = 1; }
+class Rg { public int[Cfg.width] cells; public constructor() -> Rg = default; }
+function main() -> void { qubit c; h(c); bit b = measure c; if (b == 1b) { Cfg.width = 2; } Rg r = new Rg(); echo(r.cells); Cfg.width = Cfg.width + 1; Rg r2 = new Rg(); echo(r2.cells); }""",
     "static-counter": """static class S { public static int n = 0; public static function bump() -> int { S.n = S.n + 1; return S.n; } }
 function main() -> void { echo(S.bump()); echo(S.bump()); echo(S.n); }""",
     "static-object": """class N { public int id; public constructor(int i) -> N { this.id = i; } }
